@@ -241,6 +241,8 @@ def check_shape_case(case):
               # operands that carry a transform of their own are drawn where that transform puts them
               svg.Rect(1, 2, 5, 4, transform="scale(2,3)"), svg.Polyline((0, 0), (3, 4), (6, 0), transform="translate(4,5)"),
               svg.Path("M1,1L2,3z", transform="translate(4,5) scale(2)"), svg.Path("M1,1 Q2,3 4,1 z") * svg.Matrix(0, 1, -1, 0, 3, 0),
+              # ... that the shape cannot absorb into its own attributes (a rotated or sheared rect / ellipse)
+              svg.Rect(0, 0, 2, 1, transform="rotate(90)"), svg.Ellipse(1, 1, 4, 2, transform="skewX(30) translate(2,1)"), svg.Circle(3, 3, 2, transform="scale(-1, 2)"),
               # ... and whose data is written with relative commands (a relative first move is absolute, SVG 9.3.3)
               svg.Path("m1,1 l1,2 l-2,3 z", transform="translate(100,0)"), svg.Path("m2,1 q1,2 3,0 z m 5,5 l 1,1") * svg.Matrix(2, 0, 0, 3, -7, 4)]
     for sh in shapes:
